@@ -281,7 +281,11 @@ def apply_event(tbl, ev, ctx: Ctx):
         if ctx.built.backend == "polars":
             fresh = pdt.Table(df, name=tbl._ast.name)
         else:
-            raise NotImplementedError("transfer on sql handled by the C16 profile")
+            # materialise into a new SQL table, like a user-defined `materialize` verb would
+            ctx.built.n_mat = getattr(ctx.built, "n_mat", 0) + 1
+            name = f"mat{ctx.built.n_mat}"
+            df.write_database(name, ctx.built.engine, if_table_exists="replace")
+            fresh = pdt.Table(name, pdt.SqlAlchemy(ctx.built.engine), name=tbl._ast.name)
         return pdt.transfer_col_references(fresh, tbl)
     raise ValueError(f"unknown event {k!r}")
 
